@@ -68,7 +68,7 @@ func evalGrow(c *GrowCase) (string, string) {
 func TestGrowingStore(t *testing.T) {
 	ev.Rule(chkGrow, "rapid: tree-generated histories (forks, bad deltas, duplicate creates anchored at other coordinates, replays), anchored at drawn coordinates; the operations become visible to the store in a drawn order (not necessarily the anchoring order) and ONE OperationProcessor object resolves the DID after every addition; oracle: every resolution equals the reference computed from the visible set alone; non-trivial = an operation becomes visible after one that was anchored later")
 	ev.Rapid(t, chkGrow, 300, 3000, func(t *rapid.T) {
-		h := gen.Hist(t, gen.HistOpts{MinOps: 2, MaxOps: 8, Forks: true, BadDeltas: true, DupCreates: true, Replays: true, Pool: "c02g"})
+		h := gen.Hist(t, gen.HistOpts{MinOps: 2, MaxOps: 8, Forks: true, BadDeltas: true, DupCreates: true, Cycles: true, Replays: true, Pool: "c02g"})
 		anch := gen.Anchor(t, h, gen.AnchorOpts{})
 		c := &GrowCase{Case: *hist.NewCase(h.Suffix, h.Code, 0, anch)}
 		c.Visible = gen.Perm(t, len(c.Ops), "visibleOrder")
